@@ -10,7 +10,8 @@ import numpy as np
 from lib import Prop, SkipCase
 import util
 from props import c05 as S
-from props.c06 import make_measure, strip_vecs, structural_oracle, conservation_oracle, expm_herm, mode_of, TOL
+from props.c06 import (make_measure, strip_vecs, structural_oracle, conservation_oracle, expm_herm, mode_of, TOL,
+                       propagator_herm, rel_dev)
 from props import c07w           # C07W hook: store-level tie (Evo/TDVPStore.v, two-site part)
 
 
@@ -18,6 +19,10 @@ def svd_params(spec):
     from pytreenet.util.tensor_splitting import SVDParameters
     if spec is None:
         return util.no_trunc()
+    spec = dict(spec)
+    for k in ("rel_tol", "total_tol"):          # replay files carry infinities as strings ("-inf")
+        if isinstance(spec[k], str):
+            spec[k] = float(spec[k])
     return SVDParameters(max_bond_dim=spec["max_bond"], rel_tol=spec["rel_tol"], total_tol=spec["total_tol"],
                          renorm=spec.get("renorm", False), sum_trunc=spec.get("sum_trunc", False))
 
@@ -34,16 +39,18 @@ def _run_case(case):
         ob["hscale"] = float(np.max(np.abs(sysd["H"])))
         ob["initial_shapes"] = None
         # --- C07W hook: private run of the same class for the store-level tie (structure after constructor / steps) ---
-        if c07w.sampled(case, 0):
+        if c07w.sampled(case, 0) and not case.get("large"):      # (the structural tie of two-node systems is carried by the small cases)
             ob["w"] = c07w.real_side(case, sysd, mode_of(case.get("mode", "expm")), svd, S.make_algo, S.rtree_json)
         # --- end C07W hook ---
         ob["psi0_dev"] = float(np.max(np.abs(ob["measure"][0]["vec"] - psi0))) if ob["measure"] else None
         if "exception" not in ob and case["sub"] == "twonode":
             devs = []
+            prop = propagator_herm(sysd["H"])
             for k, m in enumerate(ob["measure"]):
-                ref = expm_herm(sysd["H"], m.get("t", k) * sysd["dt"]) @ psi0      # dt = the REQUESTED time step
-                devs.append(float(np.max(np.abs(m["vec"] - ref))) / max(1.0, float(np.max(np.abs(psi0)))))
+                ref = prop(m.get("t", k) * sysd["dt"]) @ psi0      # dt = the REQUESTED time step
+                devs.append(rel_dev(m["vec"], ref, psi0))
             ob["exact_dev"] = devs
+            ob["local_dim"] = int(np.prod(case["phys"])) if case.get("phys") else None
         return strip_vecs(ob)
     except S._Skip as s:
         return {"skip": str(s)}
@@ -63,7 +70,13 @@ class C07(Prop):
             "on one object, truncation disabled (trees 4..9 nodes, two thirds with every bond >= 2): steps / reset_to_initial_state() / "
             "steps; evaluate_operators() between steps and the public run() with single-site observables on leaves (one furthest from the "
             "sweep start) and a two-site product: structure, canonical form at the recorded centre, norm and energy after every action "
-            "(recording and resetting are not schedule events: part of the tie). non-trivial = >= 2 nodes; distinct by content")
+            "(recording and resetting are not schedule events: part of the tie). Truncation through the documented builder tdvp(..., "
+            "TDVPConfig(order=2, sites=2, svd_params)) for every fifth trunc case; initial bonds above the configured maximum (physical dimension "
+            "3, every bond 3..5, max_bond 1..2, tolerances that cut nothing), class and builder in turn. Two-node exactness with large local "
+            "spaces and long steps: physical dimensions 4..40 (d1*d2 in [1000, 1150] and 36..400 in turn), initial bond 1..4, ||H|| dt in "
+            "(1/2, 1] times 1, 16, 64, 128, default mode (EXPM on medium sizes). Units / scales: Hamiltonian times 2^hexp, hexp in [-44, 24], "
+            "time step divided by the same power of two, every fifth state rescaled by 2^-30 .. 2^16 (two-node exactness and conservation "
+            "runs; state deviations relative to max|psi0|). non-trivial = >= 2 nodes; distinct by content")
     clauses = [
         ("F", "trace2s is defined on every tree with unique ids and >= 2 nodes; the signed durations of a step sum to dt (C07_two_site_runs, C07_total_duration)"),
         ("F", "two nodes (any identifiers): the step consists of exactly two half-step two-site updates on the only edge and no backward site update "
@@ -149,6 +162,39 @@ class C07(Prop):
         for j, c in enumerate(cases):
             if j % 5 == 3:
                 c["tratio"] = rng.choice(S.TRATIOS)
+        # CONFIGURATIONS: every fifth truncation case is constructed through the documented builder tdvp(state, H, dt, T, ops,
+        # TDVPConfig(order=2, sites=2, svd_params=...)) instead of the class (the truncation settings are the caller's; initial
+        # bonds above the configured maximum occur in both routes: bonds 1..3 against max_bond 1..4)
+        for j, c in enumerate([c for c in cases if c["sub"] == "trunc"]):
+            if j % 5 == 2:
+                c["builder"] = True
+        # INITIAL BONDS ABOVE THE CONFIGURED MAXIMUM ("all initial states ... all truncation settings"): physical dimension 3,
+        # every initial bond 3..5, max_bond 1..2 with tolerances that cut nothing themselves, so that the cap is what binds; the
+        # class and the builder route in turn
+        for rep in range(ctx.scale(8, 120) * budget_scale):
+            par = rng.choice([[None, 0], [None, 0, 0], [None, 0, 1], [None, 0, 1, 1], [None, 0, 0, 0], [None, 0, 1, 2], [None, 0, 0, 1, 2]])
+            tr = {"max_bond": rng.choice([1, 2, 2]), "rel_tol": rng.choice([0.0, 1e-15, float("-inf")]),
+                  "total_tol": rng.choice([0.0, 1e-15, float("-inf")]), "sum_trunc": rep % 3 == 0, "renorm": rep % 4 == 0}
+            cases.append({"par": par, "kind": "tdvp2s", "sub": "trunc", "seed": rng.randrange(10 ** 9), "herm": True, "coeffs": False,
+                          "ttno_shuffle": rep % 2 == 0, "mode": "expm", "nsteps": rng.choice([1, 2]), "nterms": rng.choice([1, 2, 3]),
+                          "trunc": tr, "phys": [3] * len(par), "bond": rng.choice([3, 4, 5]) if len(par) <= 4 else 3,
+                          "builder": rep % 2 == 1, "overcap": True})
+        # LARGE LOCAL SPACES and LONG STEPS ("reproduces exp(-iH dt) exactly on a two-node tree for any initial bond dimension"; the
+        # time step is not restricted by the text): two-node trees with physical dimensions 4..40, alternately a large local
+        # space (d1*d2 in [1000, 1150]) and a medium one (36..400), initial bond 1..4, ||H|| dt in (1/2, 1] times 1, 16, 64 or
+        # 128, default mode (and EXPM on the medium ones), against exp(-iH k dt) psi by one eigendecomposition
+        for rep in range(ctx.scale(4, 40) * budget_scale):
+            if rep % 2 == 0:
+                d1 = rng.choice([25, 28, 32, 36, 40])
+                d2 = rng.randint(-(-1000 // d1), 1150 // d1)
+            else:
+                d1, d2 = rng.choice([6, 8, 12, 16, 20]), rng.choice([6, 8, 12, 16, 20])
+            if rng.random() < 0.5:
+                d1, d2 = d2, d1
+            cases.append({"par": [None, 0], "kind": "tdvp2s", "sub": "twonode", "seed": rng.randrange(10 ** 9), "herm": True,
+                          "coeffs": rep % 4 == 1, "phys": [d1, d2], "bond": {1: rng.choice([1, 2, 3, 4])},
+                          "mode": "expm" if rep % 4 == 3 else "default", "nsteps": 1 if rep % 2 == 0 else rng.choice([1, 2]),
+                          "nterms": rng.choice([2, 3, 4]), "dtscale": [64, 1, 128, 16][rep % 4], "real": False, "large": True})
         # HISTORIES ("several consecutive steps" of ONE object as it is used): run / reset_to_initial_state() / run, and
         # observables recorded between the steps (evaluate_operators() by hand, the public run()): truncation disabled,
         # structure, canonical form, norm and energy after every action; trees up to 9 nodes, mostly entangled states (bonds >= 2)
@@ -157,6 +203,19 @@ class C07(Prop):
             return {"sub": "run", "herm": True, "coeffs": j % 4 == 0, "ttno_shuffle": j % 2 == 0,
                     "mode": "default" if j % 5 == 0 else "expm", "nterms": rng.choice([1, 2, 3])}
         cases += S.gen_history_cases(rng, ctx.scale(24, 480) * budget_scale, ["tdvp2s"], base)
+        # UNITS / SCALES: the Hamiltonian in units 2^-44 .. 2^24 with the time step scaled inversely, every fifth state rescaled
+        # by 2^-30 .. 2^16; every third case a two-node exactness case, the others conservation runs; relative judgements
+
+        def sbase(rng, j, par):
+            return {"sub": "run", "herm": True, "coeffs": j % 4 == 0, "ttno_shuffle": j % 2 == 0,
+                    "mode": "default" if j % 5 == 0 else "expm", "nterms": rng.choice([1, 2, 3]),
+                    "nsteps": rng.choice([1, 2]) if len(par) <= 5 else 1}
+
+        def stwo(rng, j):
+            return {"par": [None, 0], "sub": "twonode", "phys": [rng.choice([2, 3]), rng.choice([2, 3])],
+                    "bond": {1: rng.choice([1, 2, 3, 4])}, "mode": "default" if j % 2 else "expm", "nsteps": rng.choice([1, 2]),
+                    "nterms": rng.choice([2, 3, 4])}
+        cases += S.gen_scaled_cases(rng, ctx.scale(15, 300) * budget_scale, ["tdvp2s"], sbase, saturated=stwo)
         return cases
 
     def nontrivial(self, case):
@@ -170,6 +229,13 @@ class C07(Prop):
             c["history=" + x.get("hist", "steps")] += 1
             if x.get("tratio") is not None and x["tratio"] != int(x["tratio"]):
                 c["final-time-not-multiple-of-dt"] += 1
+            S.scale_distribution(c, x)
+            if x.get("large"):
+                c["two-node-local-dim>=1000" if int(np.prod(x["phys"])) >= 1000 else "two-node-local-dim=36..400"] += 1
+            if x.get("overcap"):
+                c["initial-bonds-above-max_bond"] += 1
+            if x.get("builder"):
+                c["via-builder:" + x["sub"]] += 1
             if x.get("trunc"):
                 c[f"max_bond={x['trunc']['max_bond']}"] += 1
                 c["sum_trunc" if x["trunc"]["sum_trunc"] else "value_trunc"] += 1
@@ -230,7 +296,8 @@ class C07(Prop):
         if case["sub"] == "twonode":
             for k, dev in enumerate(ob["exact_dev"]):
                 if dev > TOL:
-                    return f"{kind} two nodes, initial bond {case['bond']}: state after {k} steps differs from exp(-iH k dt) psi by {dev:.2e}"
+                    return (f"{kind} two nodes, physical dimensions {case.get('phys')}, initial bond {case['bond']}, mode {case.get('mode', 'expm')}, "
+                            f"dt = {ob['dt']!r}: state after {k} steps differs from exp(-iH k dt) psi by {dev:.2e} (relative to max|psi0|)")
         return None
 
     def classify(self, case, what, known):
